@@ -110,6 +110,44 @@ func vSchedExplore(maxDeviations int) {}
 func vNumCPU(n int)       {}
 func vAllowCrash(on bool) {}
 
+// vFile creates an input file (or reserves an output path) and returns the path to pass on the command
+// line; vReadFile returns a file's content. Under symgo the files live in the engine's in-memory file system.
+var vTmpDir string
+
+func vFile(name string, data []byte) string {
+	if vTmpDir == "" {
+		d, err := os.MkdirTemp("", "verif-files-")
+		if err != nil {
+			panic(err)
+		}
+		vTmpDir = d
+	}
+	p := vTmpDir + "/" + name
+	if data != nil {
+		if err := os.WriteFile(p, data, 0o644); err != nil {
+			panic(err)
+		}
+	} else {
+		os.Remove(p)
+	}
+	return p
+}
+func vReadFile(path string) string {
+	b, err := os.ReadFile(path)
+	if err != nil {
+		return ""
+	}
+	return string(b)
+}
+func vSetStdin(data []byte) {
+	p := vFile("stdin.dat", data)
+	f, err := os.Open(p)
+	if err != nil {
+		panic(err)
+	}
+	os.Stdin = f
+}
+
 // vStdoutCapture / vStdout: what the code under test writes to os.Stdout between the two calls.
 var vStdoutR, vStdoutOld *os.File
 
@@ -291,6 +329,38 @@ func init() {
 		},
 		"vAllowCrash": func(ip *Interp, fn *ssa.Function, a []Value) Value {
 			ip.allowCrash = a[0].(*Term).C == 1
+			return nil
+		},
+		"vFile": func(ip *Interp, fn *ssa.Function, a []Value) Value {
+			name := "/vfs/" + ip.nameArg(a[0])
+			if ip.vfs == nil {
+				ip.vfs = map[string]*HostObj{}
+			}
+			if sl, ok := a[1].(SliceV); ok && sl.Data != nil {
+				d := make([]Value, len(sl.Data))
+				copy(d, sl.Data)
+				ip.vfs[name] = &HostObj{Kind: "file", Data: d}
+			} else {
+				delete(ip.vfs, name)
+			}
+			return mkStr(name)
+		},
+		"vReadFile": func(ip *Interp, fn *ssa.Function, a []Value) Value {
+			f, ok := ip.vfs[ip.nameArg(a[0])]
+			if !ok {
+				return mkStr("")
+			}
+			ts := make([]*Term, len(f.Data))
+			for i, v := range f.Data {
+				ts[i] = v.(*Term)
+			}
+			return strFromTerms(ts)
+		},
+		"vSetStdin": func(ip *Interp, fn *ssa.Function, a []Value) Value {
+			sl := a[0].(SliceV)
+			d := make([]Value, len(sl.Data))
+			copy(d, sl.Data)
+			ip.stdin = d
 			return nil
 		},
 		"vStdoutCapture": func(ip *Interp, fn *ssa.Function, a []Value) Value {
